@@ -211,8 +211,13 @@ class PlanModel:
                 out.append(alt)
                 continue
             for i, (cols, pres) in enumerate(t.rows):
-                if self.mode == "inst" and i not in self.cands.get(t.tid, ()):
-                    continue
+                if self.mode == "inst":
+                    by_atom = self.cands.get(("atom", atom))
+                    if by_atom is not None:
+                        if i not in by_atom:
+                            continue
+                    elif i not in self.cands.get(t.tid, ()):
+                        continue
                 a2 = alt.fork()
                 a2.rows[(inst, atom)] = i
                 a2.conds += self.root_cond(atom, cols, pres)
